@@ -61,13 +61,113 @@ static void note_fault(int c)
 	}
 	seen_failures = n;
 }
+/* registry of the elements the scenario tried to add: after the fault every element must still be what it was added as
+ * (a request that fails for lack of memory must not leave a half-changed element behind) */
+struct regel {
+	char path[40];
+	int owner;
+	bool is_state;
+	char idtext[24];
+	bool remove_sent;
+};
+static struct regel regs[40];
+static int nregs;
+static void register_request(int c, const cJSON *rq)
+{
+	const cJSON *m = cJSON_GetObjectItemCaseSensitive(rq, "method");
+	const cJSON *pa = cJSON_GetObjectItemCaseSensitive(cJSON_GetObjectItemCaseSensitive(rq, "params"), "path");
+	if (!cJSON_IsString(m) || !cJSON_IsString(pa)) {
+		return;
+	}
+	if (strcmp(m->valuestring, "remove") == 0) {
+		for (int i = 0; i < nregs; i++) {
+			if (strcmp(regs[i].path, pa->valuestring) == 0) {
+				regs[i].remove_sent = true;
+			}
+		}
+	}
+	if (strcmp(m->valuestring, "add") != 0 || nregs >= 40) {
+		return;
+	}
+	for (int i = 0; i < nregs; i++) {
+		if (strcmp(regs[i].path, pa->valuestring) == 0) {
+			return; /* a second add of the same path must fail anyway */
+		}
+	}
+	struct regel *r = &regs[nregs++];
+	memset(r, 0, sizeof(*r));
+	snprintf(r->path, sizeof(r->path), "%s", pa->valuestring);
+	r->owner = c;
+	r->is_state = cJSON_GetObjectItemCaseSensitive(cJSON_GetObjectItemCaseSensitive(rq, "params"), "value") != NULL;
+	const cJSON *id = cJSON_GetObjectItemCaseSensitive(rq, "id");
+	char *t = id ? cJSON_PrintUnformatted(id) : NULL;
+	snprintf(r->idtext, sizeof(r->idtext), "%s", t ? t : "");
+	free(t);
+}
+static void register_text(int c, const char *t)
+{
+	cJSON *j = cJSON_Parse(t);
+	if (cJSON_IsArray(j)) {
+		const cJSON *it;
+		cJSON_ArrayForEach(it, j)
+		{
+			register_request(c, it);
+		}
+	} else if (cJSON_IsObject(j)) {
+		register_request(c, j);
+	}
+	cJSON_Delete(j);
+}
+
 static void send(int c, const char *t)
 {
 	if (c >= 0 && !sim_conn_closed_by_daemon(c) && !sim_conn_client_gone(c)) {
+		register_text(c, t);
 		cl_send_text(c, t);
 		jx_settle();
 		note_fault(c);
 	}
+}
+
+/* every element seen by a fresh subscriber is of the kind it was added as; elements whose add was acknowledged, whose
+ * owner is still connected and that nobody tried to remove are still there */
+static void check_element_integrity(void)
+{
+	int v = jx_open(CL_RAW);
+	jx_sendf(v, "{\"id\":\"iv\",\"method\":\"fetch\",\"params\":{\"id\":\"integrity\"}}");
+	jx_settle();
+	bool seen[40] = {false};
+	for (int i = 0; i < clients[v].nmsgs; i++) {
+		struct cl_msg *m = &clients[v].msgs[i];
+		if (m->cls != MC_NOTIFY) {
+			continue;
+		}
+		const cJSON *params = cJSON_GetObjectItemCaseSensitive(m->json, "params");
+		const cJSON *pa = cJSON_GetObjectItemCaseSensitive(params, "path");
+		bool has_value = cJSON_GetObjectItemCaseSensitive(params, "value") != NULL;
+		for (int k = 0; k < nregs; k++) {
+			if (cJSON_IsString(pa) && strcmp(pa->valuestring, regs[k].path) == 0) {
+				seen[k] = true;
+				if (has_value != regs[k].is_state) {
+					fail15("element-kind-changed", "'%s' was added as a %s but a fresh subscriber is told about a %s", regs[k].path, regs[k].is_state ? "state" : "method", has_value ? "state" : "method");
+				}
+			}
+		}
+	}
+	for (int k = 0; k < nregs; k++) {
+		struct regel *r = &regs[k];
+		if (seen[k] || r->remove_sent || r->owner < 0 || sim_conn_closed_by_daemon(r->owner) || sim_conn_client_gone(r->owner) || r->idtext[0] == 0) {
+			continue;
+		}
+		cJSON *id = cJSON_Parse(r->idtext);
+		struct cl_msg *resp = id ? jx_find_response(r->owner, id, 0) : NULL;
+		cJSON_Delete(id);
+		if (jx_is_success(resp)) {
+			fail15("acknowledged-element-lost", "the add of '%s' was acknowledged, its owner is still connected and nobody removed it, but a fresh subscriber is not told about it", r->path);
+		}
+	}
+	sim_client_fin(v);
+	jx_settle();
 }
 static void reply(int c, const char *member)
 {
@@ -82,10 +182,9 @@ static void reply(int c, const char *member)
 static void pre_std(void)
 {
 	B = jx_open(CL_RAW);
-	jx_sendf(B, "{\"id\":\"b1\",\"method\":\"add\",\"params\":{\"path\":\"bs\",\"value\":1}}");
-	jx_sendf(B, "{\"id\":\"b2\",\"method\":\"add\",\"params\":{\"path\":\"bm\"}}");
-	jx_sendf(B, "{\"id\":\"b3\",\"method\":\"fetch\",\"params\":{\"id\":\"fb\"}}");
-	jx_settle();
+	send(B, "{\"id\":\"b1\",\"method\":\"add\",\"params\":{\"path\":\"bs\",\"value\":1}}");
+	send(B, "{\"id\":\"b2\",\"method\":\"add\",\"params\":{\"path\":\"bm\"}}");
+	send(B, "{\"id\":\"b3\",\"method\":\"fetch\",\"params\":{\"id\":\"fb\"}}");
 	R = jx_open(CL_RAW);
 }
 static void pre_std_ws(void)
@@ -367,6 +466,7 @@ static void run(void)
 	jx_boot(&o);
 	R = B = W = -1;
 	involved = 0;
+	nregs = 0;
 	seen_failures = 0;
 	fill_mode = fill != 0;
 	sc->pre();
@@ -477,6 +577,9 @@ static void run(void)
 		jx_expire_all_timers(6);
 		check_at_most_one_response(R);
 		check_at_most_one_response(B);
+		if (!sc->passwd && !fill) {
+			check_element_integrity();
+		}
 		/* the loaded credential set may legitimately have changed size */
 		if (sc->body == body_passwd) {
 			jx_ignore_accounted_heap = true;
@@ -520,6 +623,6 @@ const struct driver drv_c15 = {
     .name = "c15",
     .property = "C15",
     .run = run,
-    .rule = "27 scenarios (connect on each listener, refused HTTP request, add state/method/with access groups, add error paths, remove, change, fetch with matchers + later events, unfetch, get, routed set with reply / error reply, call with timeout and late reply, owner leaves with requests in flight, requester leaves / is reset while owning, fetching and in flight, config/info/garbage, authenticate, passwd, batch, websocket add/ping/fragment, websocket close, websocket set and fetch, SIGTERM with peers) x the n-th allocation after the preamble returning NULL for every n from 1 to the number of allocations the scenario performs (runs with larger n repeat the reference run and are not counted); deviation budget 1: a second allocation fails k allocations after the first for every k in the window; fill=1: heap filled to the configured cap first; oracle: no crash / sanitizer report, every request id answered at most once, bystander not dropped and served, a fresh connection is served, idle baseline (peers, heap, descriptors, timers) after all leave, descriptor hygiene, clean SIGTERM exit; findings keyed by (class, scenario, function containing the failing allocation); non-trivial = runs in which an allocation actually failed",
+    .rule = "27 scenarios (connect on each listener, refused HTTP request, add state/method/with access groups, add error paths, remove, change, fetch with matchers + later events, unfetch, get, routed set with reply / error reply, call with timeout and late reply, owner leaves with requests in flight, requester leaves / is reset while owning, fetching and in flight, config/info/garbage, authenticate, passwd, batch, websocket add/ping/fragment, websocket close, websocket set and fetch, SIGTERM with peers) x the n-th allocation after the preamble returning NULL for every n from 1 to the number of allocations the scenario performs (runs with larger n repeat the reference run and are not counted); deviation budget 1: a second allocation fails k allocations after the first for every k in the window; fill=1: heap filled to the configured cap first; oracle: no crash / sanitizer report, every request id answered at most once, bystander not dropped and served, a fresh connection is served, every element is still of the kind it was added as and acknowledged elements are not lost, idle baseline (peers, heap, descriptors, timers) after all leave, descriptor hygiene, clean SIGTERM exit; findings keyed by (class, scenario, function containing the failing allocation); non-trivial = runs in which an allocation actually failed",
     .assumptions = "the connection on which the request with the failing allocation arrived may be dropped (counted as requester_dropped); every other connection must survive|allocation = malloc/calloc/realloc calls made by daemon objects (cjet_malloc and raw malloc in websocket.c / compression.c / zlib / cJSON hooks)",
 };
